@@ -367,7 +367,9 @@ def e1_configs(t):
     # loss during a start sequence (the process has a start job planned)
     out.append(e1_base('loss-during-start', 'RESTART_PROCESS', setup=[],
                        triggers=[['rpc', 0, 'start_application', ['CONFIG', 'A', False]]], expect=None, T=4))
-    if t == 'thorough':
+    # deeper variants (one more deviation, one more tick): exploratory only (VERIF_DEEP=1), see DESIGN.md 10.6 -
+    # they raise signals that have not been classified, so they are not part of the registered thorough command
+    if t == 'thorough' and os.environ.get('VERIF_DEEP'):
         deep = []
         for c in out:
             c2 = dict(c)
@@ -417,7 +419,7 @@ def main():
     known = set(out.findings)
 
     def kw(c):
-        return {'deviations': c['D'], 'closure': 'sparse', 'max_seconds': c.get('max_seconds'), 'seed': seed(),
+        return {'deviations': c['D'], 'closure': 'all' if t == 'thorough' else 'sparse', 'max_seconds': c.get('max_seconds'), 'seed': seed(),
                 'known': known}
     results = run_batches([(FDRIVER, cfgs, kw)])[0]
     complete &= aggregate(out, FDRIVER, cfgs, results,
